@@ -8,17 +8,26 @@
     [gen_entries] : (function, engine, position, call vector) for every function exported by an engine's functions
                     module and every position where live PySpark 3.5.9 reads a str as a column name *)
 From SF Require Import C16.Fexp C16.Known.
-From Gen Require Import C16Table C16Entries.
+From Gen Require Import C16Table C16Entries C16Ok0 C16Ok1 C16Ok2 C16Ok3 C16Ok4.
 From Coq Require Import String List ZArith Bool. Import ListNotations. Open Scope string_scope. Open Scope bool_scope.
 
-(** [probe_names] (the finite bound on column names), [C16_known] (the listed unrepaired defects: currently none) and
-    [C16_repaired_keys] (the 27 keys repaired in /repo, findings/C16.known.json status fixed) are in
+(** [probe_names] (the finite bound on column names), [C16_known] (the listed unrepaired defects: the format argument of three functions) and
+    [C16_repaired_keys] (the 71 keys repaired in /repo, findings/C16.known.json status fixed) are in
     theories/C16/Known.v *)
 
 (** instantiation obligation, re-checked against /repo's current source on every run: the decision procedure
     accepts every decided entry outside the listed defects *)
 Lemma gen_all_ok : all_ok gen_prims gen_table probe_names C16_known gen_entries = true.
-Proof. vm_compute. reflexivity. Qed.
+Proof.
+  (* one vm_compute obligation per probe name (Gen.C16Ok<k>, compiled in parallel), combined here *)
+  unfold probe_names.
+  apply all_ok_cons; [exact gen_ok_0|].
+  apply all_ok_cons; [exact gen_ok_1|].
+  apply all_ok_cons; [exact gen_ok_2|].
+  apply all_ok_cons; [exact gen_ok_3|].
+  apply all_ok_cons; [exact gen_ok_4|].
+  apply all_ok_nil.
+Qed.
 
 (** the property at full strength: for every function of every engine's functions module, every position where
     PySpark accepts a column name and every probe name, the name form builds the expression of the col(name) form *)
@@ -60,15 +69,16 @@ Example C16_domain_nonempty :
            ("coalesce", "standalone", 1%nat)] = true.
 Proof. vm_compute. reflexivity. Qed.
 
-(** the keys of the repaired defects are inside the theorem's domain: every one of them has decided vectors, none is
-    listed, and (by C16_partial) all of them hold -- a regression of a repair makes [gen_all_ok] fail *)
+(** the keys of the repaired defects are inside the theorem's domain: every one of them has a vector that is decided,
+    valid and holds for EVERY probe name (by C16_partial all their decided vectors hold) -- a regression of a repair makes
+    [gen_all_ok] fail *)
 Example C16_repaired :
   forallb (fun k => existsb (fun e => if key_eqb k e
-                                      then (if decided gen_prims gen_table "c" e
-                                            then (if listed C16_known e then false
-                                                  else negb (is_err (res_col gen_prims gen_table "c" e))
-                                                       && holds gen_prims gen_table "c" e)
-                                            else false)
+                                      then (if listed C16_known e then false
+                                            else forallb (fun c => if decided gen_prims gen_table c e
+                                                                   then negb (is_err (res_col gen_prims gen_table c e))
+                                                                        && holds gen_prims gen_table c e
+                                                                   else false) probe_names)
                                       else false)
                             gen_entries)
           C16_repaired_keys = true.
